@@ -78,10 +78,15 @@ fn main() {
             None => 2,
         },
         Some("check") => cmd_check(&args),
+        Some("worker") => cmd_worker(&args),
         Some("digest") => cmd_digest(&args),
         Some("journal-run") => cmd_journal_run(&args),
         Some("dump-artifacts") => {
             devtime::dump(Path::new(args.get(2).map(|s| s.as_str()).unwrap_or("/tmp/gmsim-artifacts")));
+            0
+        }
+        Some("dev-collisions") => {
+            devtime::siphash_collisions();
             0
         }
         Some("find-rare") => {
@@ -112,9 +117,25 @@ fn cmd_digest(args: &[String]) -> i32 {
         None => return 2,
     };
     let runs = args.iter().position(|a| a == "--runs").and_then(|i| args.get(i + 1)).and_then(|s| s.parse().ok()).unwrap_or((def.runs)(tier));
-    let m = runner::run_all(def.run, seed_from_env(), &id, tier, runs, serial);
-    println!("{} runs={} worlds={} ops={}", m.digest, m.runs, m.worlds, m.ops);
-    0
+    match runner::run_all(def.run, seed_from_env(), &id, tier, runs, serial) {
+        Ok(m) => {
+            println!("{} runs={} worlds={} ops={}", m.digest, m.runs, m.worlds, m.ops);
+            0
+        }
+        Err(_) => 2,
+    }
+}
+
+fn cmd_worker(args: &[String]) -> i32 {
+    if args.len() < 8 {
+        return 2;
+    }
+    let def = match props::lookup(&args[2]) {
+        Some(d) => d,
+        None => return 2,
+    };
+    let n = |i: usize| args[i].parse::<u64>().unwrap_or(0);
+    runner::worker_main(def.run, n(4), &args[2], parse_tier(args.get(3)), n(5) as usize, n(6) as usize, (n(7) as usize).max(1))
 }
 
 fn cmd_journal_run(args: &[String]) -> i32 {
@@ -170,10 +191,10 @@ fn cmd_check(args: &[String]) -> i32 {
         std::fs::create_dir_all(&replay_dir).ok();
         runner::set_journal(Some(replay_dir.join(format!("{id}-{seed}-inflight.json"))));
     }
-    {
+    let on_stuck = {
         let id2 = id.clone();
         let rd = replay_dir.clone();
-        runner::spawn_watchdog(move |run| {
+        move |run: usize| {
             // a real (non-RNG) hang: reproduce that single run in a child with the journal on,
             // let it hang again, and hand the journalled in-flight schedule out as the replay
             std::fs::create_dir_all(&rd).ok();
@@ -187,11 +208,23 @@ fn cmd_check(args: &[String]) -> i32 {
                 let _ = child.kill();
             }
             println!("VIOLATION property={id2} replay={} outcome=timeout", file.display());
-        });
-    }
+        }
+    };
+    runner::spawn_watchdog(on_stuck.clone());
     let runs = (def.runs)(tier);
     println!("gmsim: property={id} tier={} seed={seed} runs={runs} tree={}", tier.name(), runner::tree_rev());
-    let m = runner::run_all(def.run, seed, &id, tier, runs, journal_all);
+    let m = match runner::run_all(def.run, seed, &id, tier, runs, journal_all) {
+        Ok(m) => m,
+        Err(runner::WorkerFail::Stuck(run)) => {
+            on_stuck(run);
+            return 1;
+        }
+        Err(runner::WorkerFail::Died(code)) => {
+            // the wrapper re-runs the batch serially with the journal on to find the op that died
+            println!("gmsim: a worker process ended abnormally (status {code})");
+            return if code == 101 || code == 2 { code } else { 134 };
+        }
+    };
     let sim_wall = t0.elapsed().as_secs_f64();
 
     if m.stats.get("harness.invalid-schedule").copied().unwrap_or(0) > 0 {
@@ -281,7 +314,20 @@ fn cmd_check(args: &[String]) -> i32 {
             }
         };
         let mut ok = confirm(&path);
-        let (min_sched, path) = if !ok && confirm(&raw_path) {
+        let (min_sched, path) = if !ok && !confirm(&raw_path) && !journal_all {
+            // neither the world nor the run reproduces alone: the violation needs state the library
+            // kept process-wide from EARLIER RUNS of the same worker process; replay all of them
+            println!("  note: run {} alone does not reproduce; replaying everything its worker process executed before it", f.run);
+            let n = runner::workers().min(runs.max(1));
+            match runner::worker_level_schedule(def.run, seed, &id, tier, f.run, n, &f.v.oracle) {
+                Some(full) => {
+                    let p = runner::write_replay(&replay_dir, &id, seed, tier, f, &full, false, gi);
+                    ok = confirm(&p);
+                    (full, p)
+                }
+                None => (min_sched, path),
+            }
+        } else if !ok && confirm(&raw_path) {
             // the minimised schedule lost something the violation needs (state across ops that the
             // in-process minimiser could not see): hand out the unminimised, confirmed schedule
             ok = true;
@@ -340,7 +386,8 @@ fn cmd_check(args: &[String]) -> i32 {
             "real_vs_stub": {
                 "real": ["gm-sm2", "gm-sm3", "gm-sm4", "gm-sm9", "gm-zuc (all five crates, built from /repo's working tree with --cfg gm_rs_verif)"],
                 "simulated": ["random byte source (scripted candidates through the RNG seam)", "transport / storage of every byte string between two library calls", "peer implementations where the reference party plays (sm2/sm3/sm9/zuc reference models)"],
-                "not_present_in_gm_rs": ["clock", "disk", "network sockets", "threads"]
+                "not_present_in_gm_rs": ["clock", "disk", "network sockets", "threads of its own (caller threads are simulated: `par` ops)"],
+                "isolation": "runs are distributed over worker PROCESSES (run i on worker i mod N, sequential inside a worker, a fresh thread per run); two concurrent caller threads exist only inside a `par` op, where the simulator decides every switch"
             },
             "other_property_observations": other,
             "known_findings_hit": known_hit,
